@@ -57,6 +57,7 @@ type SimKnobs struct {
 	DelayMax       int   `json:"delay_max,omitempty"`
 	MaxSteps       int64 `json:"max_steps"`
 	HorizonSec     int   `json:"horizon_sec,omitempty"`
+	ChanCap        int   `json:"chan_cap,omitempty"` // shrink the library's large hard-coded channel capacities to this
 }
 
 func genKnobs(r *Rng, micro bool) SimKnobs {
@@ -92,7 +93,7 @@ func genKnobs(r *Rng, micro bool) SimKnobs {
 
 func (k SimKnobs) config(seed uint64, tape []uint32, trace bool) simrt.Config {
 	c := simrt.Config{Seed: seed, Tape: tape, Strategy: k.Strategy, SwitchPermille: k.SwitchPermille, PointMean: k.PointMean,
-		PCTDepth: k.PCTDepth, PCTSteps: k.PCTSteps, DelayKind: simrt.SiteKind(k.DelayKind), DelayMax: k.DelayMax, MaxSteps: k.MaxSteps, Trace: trace}
+		PCTDepth: k.PCTDepth, PCTSteps: k.PCTSteps, DelayKind: simrt.SiteKind(k.DelayKind), DelayMax: k.DelayMax, MaxSteps: k.MaxSteps, Trace: trace, ChanCap: k.ChanCap}
 	if k.HorizonSec > 0 {
 		c.Horizon = time.Duration(k.HorizonSec) * time.Second
 	}
